@@ -11,9 +11,9 @@ import (
 // reference the copy has to remap or duplicate.  Every family has random
 // variants; mutations and observations address exactly that kind.
 
-func hc(args ...N) N                 { return Expr(Call(Id("H"), args...)) }
-func od(name string, args ...N) N    { return Call(Dot(Id("Object"), name), args...) }
-func one(r *rand.Rand, xs ...N) N    { return xs[r.Intn(len(xs))] }
+func hc(args ...N) N              { return Expr(Call(Id("H"), args...)) }
+func od(name string, args ...N) N { return Call(Dot(Id("Object"), name), args...) }
+func one(r *rand.Rand, xs ...N) N { return xs[r.Intn(len(xs))] }
 func some(r *rand.Rand, xs ...N) []N {
 	out := []N{}
 	for _, x := range xs {
@@ -30,7 +30,7 @@ func some(r *rand.Rand, xs ...N) []N {
 // Scenario returns a (history, mutation, observation) triple.
 func Scenario(r *rand.Rand) (h, m, q []N) {
 	base := []N{Var("a", Num(1)), Var("b", Str("s")), Var("c", nil), Var("n", Num(0))}
-	switch r.Intn(13) {
+	switch r.Intn(16) {
 	case 0: // accessor properties: getter/setter functions are objects of the heap
 		acc := Obj()
 		if r.Intn(3) != 0 {
@@ -103,6 +103,49 @@ func Scenario(r *rand.Rand) (h, m, q []N) {
 		h = []N{Var("er", nil), Try([]N{Expr(Call(Id("nope")))}, "e", []N{Expr(Asg("=", Id("er"), Id("e")))}, true, nil, false), Var("er2", New(Id("RangeError"), Str("mm")))}
 		m = some(r, Expr(Asg("=", Dot(Id("er"), "name"), Str("Mine"))), Expr(Asg("=", Dot(Id("er2"), "message"), Str("changed"))), Expr(Asg("=", Dot(Id("er"), "extra"), Id("er2"))))
 		q = []N{hc(Dot(Id("er"), "name"), Bin("instanceof", Id("er"), Id("ReferenceError")), Dot(Id("er2"), "message"), Bin("+", Str(""), Id("er2")), Un("typeof", Dot(Id("er"), "extra")))}
+	case 13: // native error objects created AFTER the copy: each runtime has its own constructors and prototypes
+		kinds := []string{"Error", "EvalError", "RangeError", "ReferenceError", "SyntaxError", "TypeError", "URIError"}
+		k1 := kinds[r.Intn(len(kinds))]
+		h = []N{Expr(Asg("=", Dot(Dot(Id(k1), "prototype"), "tag"), Str("h")))}
+		k2 := kinds[r.Intn(len(kinds))]
+		m = some(r, Expr(Asg("=", Dot(Dot(Id(k2), "prototype"), "tag"), Str("m"))), Expr(Asg("=", Dot(Dot(Id(k2), "prototype"), "name"), Str("Renamed"))),
+			Expr(Asg("=", Dot(Dot(Id("Error"), "prototype"), "shared"), Num(1))))
+		q = []N{}
+		for _, k := range kinds {
+			q = append(q, Var("e", New(Id(k), Str("m"))),
+				hc(Str(k), Bin("instanceof", Id("e"), Id(k)), Bin("instanceof", Id("e"), Id("Error")), Bin("===", od("getPrototypeOf", Id("e")), Dot(Id(k), "prototype")),
+					Dot(Id("e"), "name"), Bin("+", Str(""), Id("e")), Dot(Id("e"), "tag"), Dot(Id("e"), "shared")))
+		}
+		// errors raised by the interpreter itself
+		q = append(q,
+			Try([]N{Expr(Id("notDeclared"))}, "x", []N{hc(Bin("instanceof", Id("x"), Id("ReferenceError")), Bin("===", od("getPrototypeOf", Id("x")), Dot(Id("ReferenceError"), "prototype")), Dot(Id("x"), "tag"))}, true, nil, false),
+			Try([]N{Expr(Dot(Null(), "p"))}, "x", []N{hc(Bin("instanceof", Id("x"), Id("TypeError")), Bin("===", od("getPrototypeOf", Id("x")), Dot(Id("TypeError"), "prototype")), Dot(Id("x"), "tag"))}, true, nil, false),
+			Try([]N{Expr(Asg("=", Dot(Arr(), "length"), Num(-1)))}, "x", []N{hc(Bin("instanceof", Id("x"), Id("RangeError")), Bin("===", od("getPrototypeOf", Id("x")), Dot(Id("RangeError"), "prototype")), Dot(Id("x"), "tag"))}, true, nil, false))
+	case 14: // several closures sharing ONE catch-clause environment (and a function nested in it)
+		h = []N{Var("inc", nil), Var("get", nil), Var("deep", nil),
+			Try([]N{Throw(Num(r.Intn(3)))}, "cv", []N{
+				Expr(Asg("=", Id("inc"), Fn("", nil, Return(Upd("++", true, Id("cv")))))),
+				Expr(Asg("=", Id("get"), Fn("", nil, Return(Id("cv"))))),
+				Expr(Asg("=", Id("deep"), Call(Fn("", nil, Return(Fn("", []string{"v"}, Expr(Asg("=", Id("cv"), Id("v"))), Return(Id("cv")))))))),
+			}, true, nil, false),
+			Expr(Call(Id("inc")))}
+		m = some(r, Expr(Call(Id("inc"))), Block(Expr(Call(Id("inc"))), Expr(Call(Id("inc")))), Expr(Call(Id("deep"), Num(40))))
+		q = []N{hc(Call(Id("inc")), Call(Id("get")), Call(Id("deep"), Num(7)), Call(Id("get")), Call(Id("inc")))}
+	case 15: // scopes without an arguments object, and the eval binding deleted or replaced before the copy
+		h = []N{FDecl("fa", []string{"arguments"}, Return(Fn("", nil, Return(Bin("+", Str("p:"), Id("arguments")))))), Var("ga", Call(Id("fa"), Num(r.Intn(5))))}
+		switch r.Intn(4) {
+		case 0:
+			h = append(h, Expr(Un("delete", Id("eval"))))
+		case 1:
+			h = append(h, Expr(Asg("=", Id("eval"), Num(1))))
+		case 2:
+			h = append(h, Var("keep", Id("eval")), Expr(Asg("=", Id("eval"), Fn("", []string{"s"}, Return(Str("fake"))))))
+		}
+		m = some(r, Expr(Asg("=", Id("ga"), Call(Id("fa"), Str("m")))), Expr(Asg("=", Id("eval"), Num(2))), Expr(Asg("=", Id("a"), Num(50))))
+		q = []N{hc(Call(Id("ga")), Un("typeof", Id("eval")), Un("typeof", Id("keep"))),
+			Cond(Bin("===", Un("typeof", Id("keep")), Str("function")), Call(Id("H"), EvalVia(Id("keep"), Expr(Id("a")))), Num(0)),
+			Cond(Bin("===", Un("typeof", Id("eval")), Str("function")), Call(Id("H"), EvalVia(Id("eval"), Expr(Id("a")))), Num(0))}
+		q = []N{q[0], Expr(q[1]), Expr(q[2])}
 	default: // object graph with cycles and shared sub-objects
 		h = []N{Var("x1", Obj("v", Num(1))), Var("x2", Obj("peer", Id("x1"), "v", Num(2))), Expr(Asg("=", Dot(Id("x1"), "peer"), Id("x2"))), Var("both", Arr(Id("x1"), Id("x2"), Id("x1")))}
 		m = some(r, Expr(Asg("=", Dot(Dot(Id("x1"), "peer"), "v"), Num(20))), Expr(Asg("=", Dot(Idx(Id("both"), Num(2)), "v"), Num(10))), Expr(Asg("=", Dot(Id("x2"), "peer"), Null())))
@@ -111,4 +154,3 @@ func Scenario(r *rand.Rand) (h, m, q []N) {
 	h = append(base, h...)
 	return h, m, q
 }
-
